@@ -2066,8 +2066,8 @@ impl CommandParser {
         if frames.len() != 3 {
             return Err(FerrousError::Command(CommandError::WrongNumberOfArguments("INCRBY".into())));
         }
-        let increment = Self::extract_string(&frames[2])?.parse::<i64>()
-            .map_err(|_| FerrousError::Command(CommandError::InvalidIntegerValue))?;
+        let increment = crate::storage::value::parse_strict_i64(&Self::extract_bytes(&frames[2])?)
+            .ok_or(FerrousError::Command(CommandError::InvalidIntegerValue))?;
         Ok(StringCommand::IncrBy {
             key: Self::extract_bytes(&frames[1])?,
             increment,
@@ -2124,8 +2124,8 @@ impl CommandParser {
         if frames.len() != 3 {
             return Err(FerrousError::Command(CommandError::WrongNumberOfArguments("DECRBY".into())));
         }
-        let decrement = Self::extract_string(&frames[2])?.parse::<i64>()
-            .map_err(|_| FerrousError::Command(CommandError::InvalidIntegerValue))?;
+        let decrement = crate::storage::value::parse_strict_i64(&Self::extract_bytes(&frames[2])?)
+            .ok_or(FerrousError::Command(CommandError::InvalidIntegerValue))?;
         Ok(StringCommand::DecrBy {
             key: Self::extract_bytes(&frames[1])?,
             decrement,
@@ -2579,8 +2579,8 @@ impl CommandParser {
         if frames.len() != 4 {
             return Err(FerrousError::Command(CommandError::WrongNumberOfArguments("HINCRBY".into())));
         }
-        let increment = Self::extract_string(&frames[3])?.parse::<i64>()
-            .map_err(|_| FerrousError::Command(CommandError::InvalidIntegerValue))?;
+        let increment = crate::storage::value::parse_strict_i64(&Self::extract_bytes(&frames[3])?)
+            .ok_or(FerrousError::Command(CommandError::InvalidIntegerValue))?;
         Ok(HashCommand::HIncrBy {
             key: Self::extract_bytes(&frames[1])?,
             field: Self::extract_bytes(&frames[2])?,
